@@ -1,5 +1,5 @@
 use grafeo_engine::GrafeoDB;
-fn main() {
+fn real_main() {
     let a: Vec<String> = std::env::args().collect();
     let lang = a[1].as_str();
     let n: usize = a[2].parse().unwrap();
@@ -24,7 +24,17 @@ fn main() {
             for _ in 0..n { q.push('}'); }
             s.execute_graphql(&q).map(|_| ())
         }
+        "gqlchain" => { let q = format!("MATCH (n) WHERE {} = 1 RETURN n", vec!["1"; n].join(" + ")); s.execute(&q).map(|_| ()) }
+        "cypherchain" => { let q = format!("MATCH (n) WHERE {} = 1 RETURN n", vec!["1"; n].join(" + ")); s.execute_cypher(&q).map(|_| ()) }
+        "gqland" => { let q = format!("MATCH (n) WHERE {} RETURN n", vec!["n.a = 1"; n].join(" AND ")); s.execute(&q).map(|_| ()) }
+        "sparqlchain" => { let q = format!("SELECT ?s WHERE {{ ?s ?p ?o FILTER({} = 1) }}", vec!["1"; n].join(" + ")); s.execute_sparql(&q).map(|_| ()) }
+        "gremlinchain" => { let mut q = String::from("g.V()"); for _ in 0..n { q.push_str(".out()"); } s.execute_gremlin(&q).map(|_| ()) }
         _ => panic!("lang"),
     };
     println!("{lang} {n}: returned {}", if r.is_ok() { "ok" } else { "error" });
+}
+fn main() {
+    // run in a thread with a small (1 MiB) stack: half of a default Rust thread's
+    let h = std::thread::Builder::new().stack_size(1 << 20).spawn(real_main).unwrap();
+    h.join().unwrap();
 }
